@@ -774,6 +774,9 @@ def selftest(name, tier='quick'):
     unit, udir = load_unit(name)
     bad = 0
     for sb in unit.get('sabotage', []):
+        if tier != 'thorough' and not sb.get('quick'):
+            print('SELFTEST %s/%s: skipped at tier %s (runs in the thorough tier)' % (name, sb['name'], tier))
+            continue
         ok, detail = run_sabotage(name, sb, tier)
         print('SELFTEST %s/%s: %s — %s' % (name, sb['name'], 'caught' if ok else 'MISSED', detail))
         if not ok:
